@@ -276,6 +276,10 @@ func (e *Engine) funcsForProperty(prop string) []string {
 			if e.cs.Funcs[n] == nil && fn.Parent() == nil && !ast.IsExported(fn.Name()) && e.onlyCalledDirectly(fn) {
 				continue
 			}
+			// dead code (an unexported function nobody references) cannot take part in any execution
+			if e.cs.Funcs[n] == nil && fn.Parent() == nil && !ast.IsExported(fn.Name()) && e.unreferenced(fn) {
+				continue
+			}
 			all = append(all, n)
 		}
 		sort.Strings(all)
